@@ -7,7 +7,8 @@
    check on such a table; [call cb fuel tbl recv name self args h] runs the function
    [name] of receiver type [recv] ("" = package function) on the store [h] and yields the
    returned value, the new store and the list of user callbacks the body invoked; [cb]
-   (arbitrary) says what a user callback does to the store when invoked. *)
+   (arbitrary) says what a user callback does to the store when invoked; [api_structs] (Gen/Api.v
+   too) lists the struct types of the package with their embedded types and field names. *)
 From Jen Require Import Model.FileRender.
 From Jen Require Import Spec.ApiSem Gen.Api Proofs.ApiProofs.
 
@@ -23,10 +24,16 @@ From Jen Require Import Spec.ApiSem Gen.Api Proofs.ApiProofs.
    LitFunc / LitRuneFunc / LitByteFunc build the same token type as Lit / LitRune / LitByte with
    content `f()`; every variadic Group construct except Make has a Func variant; Do, DictFunc,
    LitFunc, LitRuneFunc, LitByteFunc, CustomFunc exist and take a callback;
-   Statement.Render and Group.Render are `return x.RenderWithFile(w, NewFile(""))`; no struct
+   Statement.Render and Group.Render are `return x.RenderWithFile(w, NewFile(""))`; only package
+   functions and methods of *Statement / *Group return *Statement (no method of File or of any
+   other type does); Statement, Group and File each have a Render of their own and a GoString that
+   is `buf := <new bytes.Buffer>; if err := x.Render(&buf); err != nil { panic(err) }; return
+   buf.String()`; no struct type that embeds Group or Statement (File embeds *Group), and nothing
+   else such a type embeds, has a method or field named like a *Group / *Statement method that
+   returns *Statement (the promoted forms f.X(..) are the Group forms); no struct
    field can hold a function; there is no go / defer statement, no escaping function literal,
    no package variable that can hold a function. *)
-Theorem C14_forms_wellformed : api_wf api_table func_fields go_stmts = true.
+Theorem C14_forms_wellformed : api_wf api_table api_structs func_fields go_stmts = true.
 Proof. vm_compute. reflexivity. Qed.
 
 (* No callback can survive the constructing call: nothing in package jen can store a
@@ -37,25 +44,25 @@ Theorem C14_no_callback_at_render :
   func_fields = [] /\ go_stmts = [] /\
   forall r, In r api_table -> has_cb r = true -> exists l, r_body r = Body l.
 Proof.
-  exact (conj (proj1 (proj2 (api_wf_parts _ _ _ C14_forms_wellformed)))
-        (conj (proj2 (proj2 (api_wf_parts _ _ _ C14_forms_wellformed)))
-              (fun r => cb_rows_straight_line _ r (proj1 (api_wf_parts _ _ _ C14_forms_wellformed))))).
+  exact (conj (proj1 (proj2 (api_wf_parts _ _ _ _ C14_forms_wellformed)))
+        (conj (proj2 (proj2 (api_wf_parts _ _ _ _ C14_forms_wellformed)))
+              (fun r => cb_rows_straight_line _ r (proj1 (api_wf_parts _ _ _ _ C14_forms_wellformed))))).
 Qed.
 
 (* FUNCTION FORM = METHOD FORM ON A FRESH STATEMENT, for every table that passes the check,
    every construct, all arguments, every store and every behaviour of the callbacks:
    X(args) is exactly the computation (&Statement{}).X(args) - same returned pointer, same
    resulting store (hence the same tree), same callback log. *)
-Theorem C14_function_form : forall cb tbl ff gs, api_wf tbl ff gs = true ->
+Theorem C14_function_form : forall cb tbl sts ff gs, api_wf tbl sts ff gs = true ->
   forall X m, find_row tbl s_Statement X = Some m -> is_construct m = true ->
   forall fuel args h,
     call cb (Datatypes.S fuel) tbl [] X None args h =
     call cb fuel tbl s_Statement X (Some (VStmt (length (st_stmts h)))) args (alloc_stmt h []).
-Proof. intros cb tbl ff gs H X m. exact (func_form_sem cb tbl X m (proj1 (api_wf_parts _ _ _ H))). Qed.
+Proof. intros cb tbl sts ff gs H X m. exact (func_form_sem cb tbl X m (proj1 (api_wf_parts _ _ _ _ H))). Qed.
 
 (* GROUP FORM = function form, then the returned statement is appended to g.items, then
    it is returned. *)
-Theorem C14_group_form : forall cb tbl ff gs, api_wf tbl ff gs = true ->
+Theorem C14_group_form : forall cb tbl sts ff gs, api_wf tbl sts ff gs = true ->
   forall X m, find_row tbl s_Statement X = Some m -> is_construct m = true ->
   forall fuel args g h,
     call cb (Datatypes.S fuel) tbl s_Group X (Some (VGroup g)) args h =
@@ -67,7 +74,7 @@ Theorem C14_group_form : forall cb tbl ff gs, api_wf tbl ff gs = true ->
       end
     | None => None
     end.
-Proof. intros cb tbl ff gs H X m. exact (group_form_sem cb tbl X m (proj1 (api_wf_parts _ _ _ H))). Qed.
+Proof. intros cb tbl sts ff gs H X m. exact (group_form_sem cb tbl X m (proj1 (api_wf_parts _ _ _ _ H))). Qed.
 
 (* ALL THREE FORMS TOGETHER.  If g.X(args) returns r: X(args) and (&Statement{}).X(args)
    return the same pointer r (the next free statement cell) with the same callback log and
@@ -75,7 +82,7 @@ Proof. intros cb tbl ff gs H X m. exact (group_form_sem cb tbl X m (proj1 (api_w
    the same groups except g, and g.items = old g.items ++ [r] (r is the group's new LAST item
    and it is the returned pointer itself, not a copy); the tree below r is the same in h2 and
    h1 unless r contains g. *)
-Theorem C14_forms_equivalent : forall cb tbl ff gs, api_wf tbl ff gs = true ->
+Theorem C14_forms_equivalent : forall cb tbl sts ff gs, api_wf tbl sts ff gs = true ->
   forall X m, find_row tbl s_Statement X = Some m -> is_construct m = true ->
   forall fuel args g h r h2 lg,
     call cb (Datatypes.S (Datatypes.S fuel)) tbl s_Group X (Some (VGroup g)) args h = Some (r, h2, lg) ->
@@ -88,14 +95,14 @@ Theorem C14_forms_equivalent : forall cb tbl ff gs, api_wf tbl ff gs = true ->
       nth_error (st_groups h2) g = Some (mkgrec (g_fields gr) (g_items gr ++ [r])) /\
       (forall j, j <> g -> nth_error (st_groups h2) j = nth_error (st_groups h1) j) /\
       (forall n, avoids n h1 g r = true -> snap n h2 r = snap n h1 r).
-Proof. intros cb tbl ff gs H X m. exact (forms_equivalent cb tbl X m (proj1 (api_wf_parts _ _ _ H))). Qed.
+Proof. intros cb tbl sts ff gs H X m. exact (forms_equivalent cb tbl X m (proj1 (api_wf_parts _ _ _ _ H))). Qed.
 
 (* ...Func VARIANTS OF GROUP CONSTRUCTS.  XFunc(pre.., f) allocates a Group cell with the five
    fields [flds] and NO items, runs f(g) once, and only then appends g to the statement;
    X(pre.., items...) allocates a Group cell with the SAME [flds] and the given items and
    appends it.  So XFunc(f) denotes X applied to whatever items f left in g; the callback log
    is exactly [f]. ([pre] are the leading plain parameters: Options for Custom, none otherwise.) *)
-Theorem C14_func_variant : forall cb tbl ff gs, api_wf tbl ff gs = true ->
+Theorem C14_func_variant : forall cb tbl sts ff gs, api_wf tbl sts ff gs = true ->
   forall XF Y r yr,
   find_row tbl s_Statement XF = Some r -> is_construct r = true -> has_cb r = true ->
   strip_suffix s_Func XF = Some Y -> find_row tbl s_Statement Y = Some yr ->
@@ -119,7 +126,7 @@ Theorem C14_func_variant : forall cb tbl ff gs, api_wf tbl ff gs = true ->
          | Some h3 => Some (VStmt sp, h3, [])
          | None => None
          end).
-Proof. intros cb tbl ff gs H XF Y r yr. exact (func_variant_sem cb tbl XF Y r yr (proj1 (api_wf_parts _ _ _ H))). Qed.
+Proof. intros cb tbl sts ff gs H XF Y r yr. exact (func_variant_sem cb tbl XF Y r yr (proj1 (api_wf_parts _ _ _ _ H))). Qed.
 
 (* the field values of the theorem above always exist *)
 Theorem C14_func_variant_fields : forall pre l prevs,
@@ -129,7 +136,7 @@ Proof. exact fields_val_total. Qed.
 
 (* LitFunc / LitRuneFunc / LitByteFunc: XFunc(f) appends the token X(v) appends with v := f(),
    f called once, before the append. *)
-Theorem C14_lit_func_variant : forall cb tbl ff gs, api_wf tbl ff gs = true ->
+Theorem C14_lit_func_variant : forall cb tbl sts ff gs, api_wf tbl sts ff gs = true ->
   forall XF Y r yr,
   find_row tbl s_Statement XF = Some r -> is_construct r = true -> has_cb r = true ->
   strip_suffix s_Func XF = Some Y -> find_row tbl s_Statement Y = Some yr ->
@@ -147,12 +154,12 @@ Theorem C14_lit_func_variant : forall cb tbl ff gs, api_wf tbl ff gs = true ->
        | Some h3 => Some (VStmt sp, h3, [])
        | None => None
        end).
-Proof. intros cb tbl ff gs H XF Y r yr. exact (token_func_variant_sem cb tbl XF Y r yr (proj1 (api_wf_parts _ _ _ H))). Qed.
+Proof. intros cb tbl sts ff gs H XF Y r yr. exact (token_func_variant_sem cb tbl XF Y r yr (proj1 (api_wf_parts _ _ _ _ H))). Qed.
 
 (* CALLBACKS EXACTLY ONCE, SYNCHRONOUSLY: whenever a call of a construct returns - in its method,
    function or Group form - the log of callbacks invoked by the call has exactly one entry per
    function-typed parameter (every construct of jen has at most one: the log has length 1). *)
-Theorem C14_callbacks_once : forall cb tbl ff gs, api_wf tbl ff gs = true ->
+Theorem C14_callbacks_once : forall cb tbl sts ff gs, api_wf tbl sts ff gs = true ->
   forall X m, find_row tbl s_Statement X = Some m -> is_construct m = true ->
   (forall fuel self args h v h' lg,
      call cb fuel tbl s_Statement X self args h = Some (v, h', lg) ->
@@ -164,24 +171,24 @@ Theorem C14_callbacks_once : forall cb tbl ff gs, api_wf tbl ff gs = true ->
      call cb fuel tbl s_Group X (Some (VGroup g)) args h = Some (v, h', lg) ->
      length lg = length (filter is_func (r_params m))).
 Proof.
-  intros cb tbl ff gs H X m Hf Hc.
-  exact (conj (construct_callbacks_once cb tbl X m (proj1 (api_wf_parts _ _ _ H)) Hf Hc)
-        (conj (func_form_callbacks_once cb tbl X m (proj1 (api_wf_parts _ _ _ H)) Hf Hc)
-              (group_form_callbacks_once cb tbl X m (proj1 (api_wf_parts _ _ _ H)) Hf Hc))).
+  intros cb tbl sts ff gs H X m Hf Hc.
+  exact (conj (construct_callbacks_once cb tbl X m (proj1 (api_wf_parts _ _ _ _ H)) Hf Hc)
+        (conj (func_form_callbacks_once cb tbl X m (proj1 (api_wf_parts _ _ _ _ H)) Hf Hc)
+              (group_form_callbacks_once cb tbl X m (proj1 (api_wf_parts _ _ _ _ H)) Hf Hc))).
 Qed.
 
 (* the same for any other exported function that takes a callback (DictFunc) *)
-Theorem C14_callbacks_once_other : forall cb tbl ff gs, api_wf tbl ff gs = true ->
+Theorem C14_callbacks_once_other : forall cb tbl sts ff gs, api_wf tbl sts ff gs = true ->
   forall recv name r, find_row tbl recv name = Some r -> has_cb r = true -> returns_stmt r = false ->
   forall fuel self args h v h' lg,
     call cb fuel tbl recv name self args h = Some (v, h', lg) ->
     length lg = length (filter is_func (r_params r)).
-Proof. intros cb tbl ff gs H recv name r. exact (callback_fn_once cb tbl recv name r (proj1 (api_wf_parts _ _ _ H))). Qed.
+Proof. intros cb tbl sts ff gs H recv name r. exact (callback_fn_once cb tbl recv name r (proj1 (api_wf_parts _ _ _ _ H))). Qed.
 
 (* the callback APIs the property names are all there, each with a callback parameter *)
 Theorem C14_named_callback_apis : forall recv name, In (recv, name) named_callback_apis ->
   exists r, find_row api_table recv name = Some r /\ has_cb r = true.
-Proof. exact (api_wf_named _ _ _ C14_forms_wellformed). Qed.
+Proof. exact (api_wf_named _ _ _ _ C14_forms_wellformed). Qed.
 
 (* GoString = Render = RenderWithFile with a fresh File.
    In the model: [code_render] (what Render and GoString write; GoString additionally turns
@@ -195,7 +202,43 @@ Proof. exact entry_points_agree. Qed.
 Theorem C14_render_delegates : forall recv, recv = s_Statement \/ recv = s_Group ->
   exists r w, find_row api_table recv (S "Render") = Some r /\ r_params r = [w] /\
     r_body r = Body [SReturn (ECallMeth (EVar (r_self r)) (S "RenderWithFile") [EVar (p_name w); ECallFn (S "NewFile") [EStr []]])].
-Proof. exact (api_wf_render _ _ _ C14_forms_wellformed). Qed.
+Proof. exact (api_wf_render _ _ _ _ C14_forms_wellformed). Qed.
+
+(* ... GoString in the current source: for *Statement, *Group and *File the body is literally
+   `buf := <a new bytes.Buffer>; if err := x.Render(&buf); err != nil { panic(err) }; return
+   buf.String()` with x the receiver, and the receiver's type has a Render method of its own (so
+   x.Render is that one, not a promoted one). *)
+Theorem C14_gostring_delegates : forall recv, recv = s_Statement \/ recv = s_Group \/ recv = s_File ->
+  exists r b rr, find_row api_table recv (S "GoString") = Some r /\ r_params r = [] /\ r_ret r = S "string" /\
+    r_body r = BufString b (ECallMeth (EVar (r_self r)) (S "Render") [EVar b]) /\ b <> r_self r /\
+    find_row api_table recv (S "Render") = Some rr.
+Proof.
+  intros recv H. apply (api_wf_gostring _ _ _ _ C14_forms_wellformed).
+  destruct H as [H|[H|H]]; subst; simpl; auto.
+Qed.
+
+(* ONLY THE THREE FORMS.  In every table that passes the check a function that returns *Statement
+   is a package function or a method of *Statement or *Group (which row_ok ties to a construct);
+   File - or any other type - has no method returning *Statement. *)
+Theorem C14_only_three_forms : forall tbl sts ff gs, api_wf tbl sts ff gs = true ->
+  forall r, In r tbl -> returns_stmt r = true ->
+  r_recv r = [] \/ r_recv r = s_Statement \/ r_recv r = s_Group.
+Proof. intros tbl sts ff gs H r. exact (returns_stmt_recv tbl r (proj1 (api_wf_parts _ _ _ _ H))). Qed.
+
+(* THE PROMOTED FORMS ARE THE GROUP FORMS.  B is Group (or Statement), T another struct type that
+   embeds B - directly as File does, or through further embedded fields: then neither T nor
+   anything else T embeds (at any depth; B itself excepted) has a method or a field with the name
+   of a method of B that returns *Statement, and all those types are struct types of package jen
+   or Statement (types whose methods and fields the table lists).  So t.X(..) can only select
+   the method X of B: nothing shadows it, nothing makes it ambiguous. *)
+Theorem C14_promoted_forms_not_shadowed : forall tbl sts ff gs, api_wf tbl sts ff gs = true ->
+  forall B, B = s_Group \/ B = s_Statement ->
+  forall T, In T (map t_name sts) -> reaches sts B T = true ->
+  forall U, In U (cone_of sts T) -> U <> B ->
+    known_type sts U = true /\
+    forall M r, find_row tbl B M = Some r -> returns_stmt r = true ->
+      find_row tbl U M = None /\ ~ In M (fields_of sts U).
+Proof. exact no_shadow_sound. Qed.
 
 (* ---- non-vacuity: the theorems' hypotheses hold of the current table, and the semantics
    computes what one expects on it.  [demo_cb]: a callback given a group appends two items to
@@ -252,3 +295,59 @@ Example C14_example_run :
   (match call demo_cb 3 api_table [] (S "DictFunc") None [VCb 5] empty_store with Some (_, _, lg) => lg | None => [] end) = [5%N] /\
   (match call demo_cb 3 api_table [] (S "LitFunc") None [VCb 5] empty_store with Some (_, _, lg) => lg | None => [] end) = [5%N].
 Proof. repeat split; vm_compute; reflexivity. Qed.
+
+(* ---- non-vacuity of the checks on receivers, embedding and GoString.
+   File is the one struct type of the current tree that gets the Group forms by promotion; its
+   embedding cone is [File; Group]; there are 120 Group forms it must not shadow. *)
+Example C14_example_promotion :
+  filter (reaches api_structs s_Group) (map t_name api_structs) = [S "File"] /\
+  filter (reaches api_structs s_Statement) (map t_name api_structs) = [] /\
+  cone_of api_structs (S "File") = [S "File"; S "Group"] /\
+  length (form_names api_table s_Group) = 120%nat /\
+  declares api_table api_structs (S "File") (S "Render") = true /\
+  declares api_table api_structs (S "File") (S "NoFormat") = true.
+Proof. repeat match goal with |- _ /\ _ => split end; vm_compute; reflexivity. Qed.
+
+(* tables the checker must reject (each differs from the current one in one row or one struct):
+   1. `func (f *File) Type() *Statement { s := Type(); return s }` - a fourth form, shadowing
+      the promoted Group form (row_ok: receiver File returns *Statement; no_shadow too);
+   2. `func (f *File) Type() string` - shadows without returning *Statement (no_shadow only);
+   3. File gets a field called Block;
+   4. File embeds an unexported struct that has an exported method Id (found under its real
+      receiver type whatever alias the source uses);
+   5. File embeds a type of another package (its methods are not in the table);
+   6. Statement.GoString renders with RenderWithFile(&buf, NewFilePath(..));
+   7. File.GoString written out by hand (Other text);
+   8. File.Render removed (f.Render(&buf) would select the promoted Render of *Group). *)
+Definition bad_row_1 : api_row :=
+  mkrow (S "File") (S "f") (S "Type") [] (S "*Statement")
+        (Body [SDefine (S "s") (ECallFn (S "Type") []); SReturn (EVar (S "s"))]).
+Definition bad_row_2 : api_row := mkrow (S "File") (S "f") (S "Type") [] (S "string") (Other (S "{ return """" }")).
+Definition set_struct (st : struct_info) (sts : list struct_info) : list struct_info :=
+  map (fun s => if str_eqb (t_name s) (t_name st) then st else s) sts.
+Definition set_row (r : api_row) (tbl : list api_row) : list api_row :=
+  map (fun x => if row_is (r_recv r) (r_name r) x then r else x) tbl.
+Definition drop_row (recv name : str) (tbl : list api_row) : list api_row :=
+  filter (fun x => negb (row_is recv name x)) tbl.
+
+Example C14_example_rejected :
+  api_wf (bad_row_1 :: api_table) api_structs [] [] = false /\
+  no_shadow (bad_row_1 :: api_table) api_structs = false /\
+  rows_wf (bad_row_2 :: api_table) = true /\
+  api_wf (bad_row_2 :: api_table) api_structs [] [] = false /\
+  api_wf api_table (set_struct (mkstruct (S "File") [S "Group"] [S "name"; S "Block"]) api_structs) [] [] = false /\
+  api_wf (mkrow (S "core") (S "c") (S "Id") [] (S "") (Other []) :: api_table)
+         (mkstruct (S "core") [] [] :: set_struct (mkstruct (S "File") [S "Group"; S "core"] []) api_structs) [] [] = false /\
+  api_wf api_table (set_struct (mkstruct (S "File") [S "Group"; S "bytes.Buffer"] []) api_structs) [] [] = false /\
+  api_wf (set_row (mkrow s_Statement (S "s") (S "GoString") [] (S "string")
+                     (BufString (S "buf") (ECallMeth (EVar (S "s")) (S "RenderWithFile")
+                                   [EVar (S "buf"); ECallFn (S "NewFilePath") [EStr (S "zz.zz/local")]]))) api_table)
+         api_structs [] [] = false /\
+  api_wf (set_row (mkrow s_File (S "f") (S "GoString") [] (S "string") (Other (S "{ ... }"))) api_table)
+         api_structs [] [] = false /\
+  api_wf (drop_row s_File (S "Render") api_table) api_structs [] [] = false /\
+  (* the helpers do what they say: unchanged inputs are accepted *)
+  api_wf (set_row (mkrow s_Statement (S "s") (S "GoString") [] (S "string")
+                     (BufString (S "b") (ECallMeth (EVar (S "s")) (S "Render") [EVar (S "b")]))) api_table)
+         (set_struct (mkstruct (S "File") [S "Group"] [S "name"]) api_structs) [] [] = true.
+Proof. repeat match goal with |- _ /\ _ => split end; vm_compute; reflexivity. Qed.
